@@ -831,3 +831,74 @@ func htmlShapeNative(s string) (tagOpens, quotes int) {
 	}
 	return
 }
+
+// unescapeRefs decodes the character references listed in table (names
+// without the leading '&', with their terminator, e.g. "amp;") and leaves
+// every other byte alone. For each slot a backward pass computes whether
+// the present slots from there on spell a name; a forward pass then drops
+// the slots consumed by a decoded reference.
+func (L strLib) unescapeRefs(s *Str, table map[string]byte) *Str {
+	F := L.F
+	n := len(s.s)
+	names := make([]string, 0, len(table))
+	for k := range table {
+		names = append(names, k)
+	}
+	for i := range names {
+		for j := i + 1; j < len(names); j++ {
+			if names[j] < names[i] {
+				names[i], names[j] = names[j], names[i]
+			}
+		}
+	}
+	// M[e][k][j]: the present slots from k on start with names[e][j:]
+	start := make([][]*smt.Term, len(names)) // start[e][k]: slot k is '&' and the name follows
+	for e, name := range names {
+		m := len(name)
+		next := make([]*smt.Term, m+1)
+		for j := 0; j <= m; j++ {
+			next[j] = F.False
+		}
+		next[m] = F.True
+		rows := make([][]*smt.Term, n+1)
+		rows[n] = next
+		for k := n - 1; k >= 0; k-- {
+			cur := make([]*smt.Term, m+1)
+			cur[m] = F.True
+			sl := s.s[k]
+			for j := 0; j < m; j++ {
+				hit := F.And(F.Eq(sl.b, F.BV(uint64(name[j]), 8)), rows[k+1][j+1])
+				cur[j] = F.Ite(sl.g, hit, rows[k+1][j])
+			}
+			rows[k] = cur
+		}
+		start[e] = make([]*smt.Term, n)
+		for k := 0; k < n; k++ {
+			sl := s.s[k]
+			start[e][k] = F.And(sl.g, F.Eq(sl.b, F.BV('&', 8)), rows[k+1][0])
+		}
+	}
+	const rw = 4 // remaining-to-skip counter width (names are shorter than 16)
+	rem := F.BV(0, rw)
+	out := make([]slot, 0, n)
+	for k := 0; k < n; k++ {
+		sl := s.s[k]
+		skipping := F.Not(F.Eq(rem, F.BV(0, rw)))
+		g := F.And(sl.g, F.Not(skipping))
+		b := sl.b
+		newRem := F.Ite(F.And(sl.g, skipping), F.Sub(rem, F.BV(1, rw)), rem)
+		for e, name := range names {
+			st := F.And(start[e][k], F.Not(skipping))
+			b = F.Ite(st, F.BV(uint64(table[name]), 8), b)
+			newRem = F.Ite(st, F.BV(uint64(len(name)), rw), newRem)
+		}
+		rem = newRem
+		if !g.IsFalse() {
+			out = append(out, slot{g, b})
+		}
+	}
+	return &Str{s: out}
+}
+
+// the references the engine under test and the formatter can emit
+var basicRefs = map[string]byte{"amp;": '&', "lt;": '<', "gt;": '>', "quot;": '"', "#34;": '"', "#39;": '\'', "#13;": '\r'}
